@@ -43,6 +43,9 @@ type Step struct {
 	Linger int    `json:"linger,omitempty"` // cg mode: every function takes this many ms to return after its context ended
 	CtxMs  int    `json:"ctxMs,omitempty"`  // commitlast: the context of CommitMessages ends after this many ms (the caller gives up)
 	PaceUs int    `json:"paceUs,omitempty"` // fetch: pause between two FetchMessage calls (a steadily consuming application)
+	// fetch: every CancelEvery-th call is made with a context that is already done (an application polling with
+	// per-call timeouts / shutting a worker down); such a call may return the context's error or a message, never both
+	CancelEvery int `json:"cancelEvery,omitempty"`
 }
 
 type Script struct {
@@ -64,18 +67,19 @@ type Script struct {
 func valueOf(t string, p int, off int64) []byte { return []byte(fmt.Sprintf("%s/%d@%d", t, p, off)) }
 
 type member struct {
-	id        int
-	owner     string
-	rd        *kafka.Reader
-	cg        *kafka.ConsumerGroup
-	cmds      chan func()
-	done      chan struct{}
-	last      []kafka.Message
-	cancel    context.CancelFunc
-	closed    bool
-	commitCtx time.Duration // > 0: CommitMessages gets a context that ends after this long
-	burst     chan struct{} // closed when the calls of the last "commitburst" have returned
-	paceUs    int
+	id          int
+	owner       string
+	rd          *kafka.Reader
+	cg          *kafka.ConsumerGroup
+	cmds        chan func()
+	done        chan struct{}
+	last        []kafka.Message
+	cancel      context.CancelFunc
+	closed      bool
+	commitCtx   time.Duration // > 0: CommitMessages gets a context that ends after this long
+	burst       chan struct{} // closed when the calls of the last "commitburst" have returned
+	paceUs      int
+	cancelEvery int
 }
 
 type run struct {
@@ -530,6 +534,9 @@ func (r *run) fetch(m *member, n int, commit string) {
 			time.Sleep(time.Duration(m.paceUs) * time.Microsecond)
 		}
 		ctx, cancel := context.WithTimeout(context.Background(), callTimeout)
+		if m.cancelEvery > 0 && i%m.cancelEvery == m.cancelEvery-1 {
+			cancel() // the caller's context is done before the call
+		}
 		var msg kafka.Message
 		var err error
 		if commit == "read" {
@@ -545,6 +552,9 @@ func (r *run) fetch(m *member, n int, commit string) {
 			ok := string(msg.Value) == string(valueOf(msg.Topic, msg.Partition, msg.Offset))
 			r.rec.Emit(trace.Event{"ev": "msg", "m": m.id, "tp": fmt.Sprintf("%s/%d", msg.Topic, msg.Partition), "off": msg.Offset, "ok": ok, "read": commit == "read"})
 			m.last = append(m.last, msg)
+		case errors.Is(err, context.Canceled) && m.cancelEvery > 0:
+			r.rec.Emit(trace.Event{"ev": "fetcherr", "m": m.id, "err": err.Error()})
+			continue
 		case errors.Is(err, context.DeadlineExceeded):
 			r.rec.Emit(trace.Event{"ev": "nomsg", "m": m.id})
 			return
@@ -733,7 +743,13 @@ func Run(sc *Script) []trace.Event {
 			if m := r.members[st.M]; m != nil && !m.closed {
 				done := make(chan struct{})
 				pace := st.PaceUs
-				m.cmds <- func() { m.paceUs = pace; r.fetch(m, st.N, st.Commit); m.paceUs = 0; close(done) }
+				ce := st.CancelEvery
+				m.cmds <- func() {
+					m.paceUs, m.cancelEvery = pace, ce
+					r.fetch(m, st.N, st.Commit)
+					m.paceUs, m.cancelEvery = 0, 0
+					close(done)
+				}
 				if st.Wait {
 					<-done
 				}
@@ -841,6 +857,25 @@ func Run(sc *Script) []trace.Event {
 				return trace.Event{"ev": "append", "tp": fmt.Sprintf("%s/%d", st.T, st.P), "n": st.N, "hw": p.HW}
 			})
 			r.cl.Unlock()
+		case "fetchfault":
+			// the next N fetch requests for the partition are answered with an error code, or (code -1) not at all: the
+			// connection is closed
+			r.cl.Lock()
+			if p := r.cl.Part(st.T, st.P); p != nil {
+				n := st.N
+				if n == 0 {
+					n = 1
+				}
+				for i := 0; i < n; i++ {
+					if st.Code < 0 {
+						p.FetchPlan = append(p.FetchPlan, fakekafka.FetchFault{UseCut: true, CutFrame: 0})
+					} else {
+						p.FetchPlan = append(p.FetchPlan, fakekafka.FetchFault{Err: int16(st.Code)})
+					}
+				}
+			}
+			r.cl.Unlock()
+			r.rec.Emit(trace.Event{"ev": "fetchfault", "tp": fmt.Sprintf("%s/%d", st.T, st.P), "code": st.Code})
 		case "addpartition":
 			r.cl.Lock()
 			t := r.cl.Topics[st.T]
